@@ -4,7 +4,9 @@ TLC explores MCDbExport (MCDb with the view <<db, steps>>) and prints one histor
 query form of the bounded vocabulary in every distinct reachable abstract state, reached by a shortest history.
 `vdb mbt` executes each history on the real database (memory variant; every n-th history on the file-backed variants
 in lock-step, every 5th of those closed and reopened before the dump) and records the run as a DbTrace trace
-(Reset, queries with the real outcomes, final Observe); DbTrace (skip mode) decides every run.
+(Reset, queries with the real outcomes, final Observe); DbTrace (skip mode) decides every run. Every history is
+replayed in four plans: as printed; with its last query inside a transaction that the closure aborts; with its last two
+queries inside an aborted transaction; with its last two queries inside a committing transaction.
 """
 import json
 import os
@@ -53,9 +55,19 @@ def run(prop, tier, verdict, work, totals, graph=False):
     module = "MCGraphExport" if graph else "MCDbExport"
     key = "mbt_search_family_on_every_graph_of_bounded_model" if graph else "mbt_every_transition_of_bounded_model"
     hist = os.path.join(work, "mbt_histories_%s.ndjson" % module)
-    n, r = export(module + ("_thorough.cfg" if thorough else ".cfg"), hist, module=module, per_state=graph)
-    lines = open(hist).read().splitlines()
-    jobs = 12 if thorough else (8 if graph else 4)
+    if graph:
+        n, r = export(module + ("_thorough.cfg" if thorough else ".cfg"), hist, module=module, per_state=True)
+        lines = open(hist).read().splitlines()
+    else:
+        # depth 3 always (89 469 transitions); the quick tier replays every history of <= 2 queries and a seeded
+        # eighth of those with 3, the thorough tier all of them
+        n, r = export("MCDbExport_thorough.cfg", hist, module=module)
+        lines = open(hist).read().splitlines()
+        if not thorough:
+            off = vlib.seed() % 8
+            lines = [ln for i, ln in enumerate(lines) if ln.count('"ev"') <= 2 or i % 8 == off]
+        n = len(lines)
+    jobs = 12 if thorough else 8
     per = (len(lines) + jobs - 1) // jobs
     chunks = []
     for j in range(jobs):
@@ -73,7 +85,7 @@ def run(prop, tier, verdict, work, totals, graph=False):
         # chunk j % 4 == 0 runs on the file-backed variants in lock-step, the others in memory only
         variants = "memory,file,mapped,any_file" if j % 4 == 0 else "memory"
         rr = vlib.run_bin(vdb, ["mbt", "--in", p, "--out", out, "--work", os.path.join(work, "mbtw%d" % j),
-                                "--first", first, "--variants", variants, "--searches", 1 if graph else 0], timeout=2400)
+                                "--first", first, "--variants", variants, "--searches", 1 if graph else 0, "--tx", 0 if graph else 1], timeout=2400)
         if rr.returncode != 0:
             return {"chunk": j, "died": (rr.stderr or "")[-300:], "out": out, "first": first}
         summ = json.loads(rr.stdout.strip().splitlines()[-1])
@@ -87,7 +99,7 @@ def run(prop, tier, verdict, work, totals, graph=False):
     rejs = [y for x in results for y in x.get("rej", [])]
     died = [x for x in results if "died" in x]
     ms = vlib.sum_keys([x["summary"] for x in results if "summary" in x],
-                       ["histories", "steps", "steps_ok", "steps_failed", "reopened", "aborted_runs", "searches", "searches_nontrivial"])
+                       ["histories", "steps", "steps_ok", "steps_failed", "reopened", "aborted_runs", "searches", "searches_nontrivial", "transactions", "transactions_rolled_back"])
     log("[%s] MBT (%s, %d histories from %d distinct states, depth %d): histories=%d accepted=%d rejected=%d "
         "events=%d died=%d %.0fs %s" % (prop, module, n, r.distinct, r.depth, ms["histories"], acc, len(rejs), checked, len(died),
                                         time.time() - t0, ms))
@@ -105,6 +117,8 @@ def run(prop, tier, verdict, work, totals, graph=False):
     totals["events_checked"] += checked
     totals["mutations"] += ms["steps"]
     totals["mutations_failed"] += ms["steps_failed"]
+    totals["transactions"] += ms["transactions"]
+    totals["transactions_rolled_back"] += ms["transactions_rolled_back"]
     totals["searches"] += ms["searches"]
     totals["searches_nontrivial"] += ms["searches_nontrivial"]
     totals["per_profile"][key] = {
